@@ -65,6 +65,7 @@ Inductive op :=
 | Add (x : K) | Remove (x : K) | Discard (x : K)
 | Pop (i : option Z)
 | Clear | Sort (reverse : bool) | Reverse
+| SortKey (m : nat) (reverse : bool)       (* sort(key=lambda x: <token of x> mod m, reverse=...) *)
 | Update (os : list operand)
 | IntersectionUpdate (os : list operand)
 | DifferenceUpdate (os : list operand)
@@ -148,6 +149,18 @@ Fixpoint ins_sorted (x : K) (l : list K) : list K :=
 Definition sort_nat (l : list K) : list K := fold_right ins_sorted [] l.
 Definition py_sorted (l : list K) (reverse : bool) : list K :=
   if reverse then rev (sort_nat l) else sort_nat l.
+
+(* sorted(l, key=k, reverse=r) is stable: equal keys keep their order, also when reverse=True
+   (CPython reverses, sorts, reverses).  Insertion sort from the right is stable. *)
+Fixpoint ins_key (key : K -> N) (x : K) (l : list K) : list K :=
+  match l with
+  | [] => [x]
+  | y :: r => if N.leb (key x) (key y) then x :: y :: r else y :: ins_key key x r
+  end.
+Definition sort_key (key : K -> N) (l : list K) : list K := fold_right (ins_key key) [] l.
+Definition mod_key (m : nat) (x : K) : N := N.modulo x (N.of_nat m).
+Definition py_sorted_key (l : list K) (m : nat) (reverse : bool) : list K :=
+  if reverse then rev (sort_key (mod_key m) (rev l)) else sort_key (mod_key m) l.
 
 (* first occurrences, in order *)
 Fixpoint uniq (l : list K) : list K :=
